@@ -6,5 +6,7 @@ export CARGO_NET_OFFLINE=true
 mkdir -p .work evidence cex
 [ -f kani/Cargo.lock ] || cp /repo/Cargo.lock kani/Cargo.lock
 python3-vt -c "import z3; print('z3', z3.get_version_string())"
+python3-vt -m vlib.catalog
+python3-vt -m vlib.gen_nodes
 cargo kani --version
 echo setup ok
